@@ -281,7 +281,25 @@ pub fn replay_child(args: &Args) {
         let mut out = ReplayOut::default();
         // Everything the stream emits before the sentinel's own Processed event belongs to the replay:
         // locally published operations are only looked at after the replay task finished.
-        let fut = tx.publish("__sentinel__".to_string()).await.expect("sentinel");
+        // The publish may fail with a transient "database is locked" (writes outside the store's
+        // transaction permit, e.g. the prune step, compete for SQLite's write lock): retry.
+        let mut fut = None;
+        for _ in 0..20 {
+            match tx.publish("__sentinel__".to_string()).await {
+                Ok(f) => {
+                    fut = Some(f);
+                    break;
+                }
+                Err(e) => {
+                    out.failed.push(format!("sentinel publish: {e}"));
+                    tokio::time::sleep(Duration::from_millis(250)).await;
+                }
+            }
+        }
+        let Some(fut) = fut else {
+            std::fs::write(&out_path, serde_json::to_string(&out).unwrap()).unwrap();
+            std::process::exit(0);
+        };
         let sentinel = fut.hash();
         let deadline = tokio::time::Instant::now() + Duration::from_secs(120);
         while let Ok(Some(ev)) = tokio::time::timeout_at(deadline, sub.next()).await {
